@@ -12,6 +12,52 @@ def _sq(x):
     return {"outcome": x % 3, "violations": []}
 
 
+def _envfault_selftest():
+    """The deviation-bounded explorer must (a) see every iterative-solver call of a client, (b) flag a
+    client that discards `info` and keeps the default tolerance, (c) replay deterministically.  On the
+    repaired tree the library makes no iterative calls, so this stub keeps the engine honest."""
+    import numpy as np  # noqa: PLC0415
+    import scipy.sparse as sp  # noqa: PLC0415
+    import scipy.sparse.linalg as spl  # noqa: PLC0415
+
+    from . import envfault  # noqa: PLC0415
+
+    A = sp.diags([[-1.0] * 4, [3.0] * 5, [-1.0] * 4], [-1, 0, 1], format="csr")
+    b = np.arange(1.0, 6.0)
+
+    def careless():
+        x = b.copy()
+        for _ in range(3):
+            x, _info = spl.bicgstab(A, x, atol=1e-12)  # default rtol, info discarded
+        return x
+
+    def careful():
+        x = b.copy()
+        for _ in range(3):
+            x, info = spl.bicgstab(A, x, rtol=1e-13, atol=1e-300)
+            if info != 0:
+                raise RuntimeError("solver did not converge")
+        return x
+
+    exact = np.linalg.solve(A.toarray() @ A.toarray() @ A.toarray(), b)
+    for body, must_flag in ((careless, True), (careful, False)):
+        runs = list(envfault.explore(body, 1))
+        assert len(runs) == 1 + 3 * (envfault.N_ALT - 1), len(runs)
+        assert all(len(r["points"]) == 3 or r["raised"] for _, r in runs)
+        silent = [c for c, r in runs if not r["raised"] and np.max(np.abs(r["result"] - exact)) > 1e-9 * np.abs(exact).max()]
+        assert bool(silent) == must_flag, (body.__name__, silent)
+    a1 = envfault.run_once(careless, [0, 2, 0])["result"]
+    a2 = envfault.run_once(careless, [0, 2, 0])["result"]
+    assert np.array_equal(a1, a2), "replay must be deterministic"
+    try:
+        envfault.run_once(careless, [0, 0, 0, 1])
+    except envfault.ReplayError:
+        pass
+    else:
+        raise AssertionError("an unconsumed choice must be a hard error")
+    print("envfault explorer self-test ok (13 executions per client, careless client flagged)")
+
+
 def main() -> int:
     bb = common.bind()
     import jsonschema, lmfit, matplotlib, numpy, pandas, scipy  # noqa: F401, E401, PLC0415
@@ -24,6 +70,7 @@ def main() -> int:
     assert [o["outcome"] for o in out] == [i % 3 for i in range(1000)], "pmap must preserve order"
     g1, g2 = common.LCG(7), common.LCG(7)
     assert [g1.next() for _ in range(5)] == [g2.next() for _ in range(5)]
+    _envfault_selftest()
     print("selftest ok")
     return 0
 
